@@ -184,6 +184,8 @@ class FoldMixin:
             fr.loops.pop()
         out = self.merge_all([o for o in [out] + ctx.continues if o is not None])
         failed = None
+        if out is not None and self.loop_counter_changes(s, st, out):
+            failed = "the body performs a counted operation (%s)" % ", ".join(sorted(self.loop_counter_changes(s, st, out)))
         if ctx.breaks:
             failed = "break inside a summarised loop"
         elems = None
